@@ -65,7 +65,7 @@
         applying_yields(deref_seq(old_iter.remaining()), res.items@, deref_seq(new_iter.remaining())),
         // C11: counts match the listed actions
         res.counted(),
-        // (the change set as a function of the two data sets; used by C12)
+        // C11 C12: the change set as a function of the two data sets
         res.items@ == diff(deref_seq(old_iter.remaining()), deref_seq(new_iter.remaining())),
         // both iterators are run to completion: the data sets above are all they had to yield
         old_iter.will_return_none() && new_iter.will_return_none(),
@@ -81,6 +81,7 @@
     }
 //@ loop 1
         invariant_except_break
+            // C11 C12
             diff(O, N) == items.items@ + diff(rest(opt_old, old_iter.remaining()), rest(opt_new, new_iter.remaining())),
             items.items@.len() + rest(opt_old, old_iter.remaining()).len() + rest(opt_new, new_iter.remaining()).len() <= usize::MAX,
             old_iter.will_return_none() == wo0,
@@ -94,6 +95,7 @@
             opt_new is None ==> new_iter.remaining().len() == 0 && new_iter.will_return_none(),
             items.counted(),
         ensures
+            // C11 C12
             items.items@ =~= diff(O, N),
             wo0 && wn0,
         decreases
@@ -110,6 +112,7 @@
             }
 //@ loopend 1
             proof {
+                // C11 C12
                 assert(items0 + diff(ro0, rn0)
                     =~= items.items@ + diff(rest(opt_old, old_iter.remaining()), rest(opt_new, new_iter.remaining())));
             }
@@ -256,17 +259,21 @@
         asorted(firsts(new_iter.remaining())),
         old_iter.remaining().len() + new_iter.remaining().len() <= usize::MAX,
     ensures
-        // C11: per customer, the change set says exactly what changed: nothing if the ASPA is unchanged,
+        // C11 C12: per customer, the change set says exactly what changed: nothing if the ASPA is unchanged,
         // a withdrawal if the customer disappeared, an announcement if it is new, an update (carrying the
-        // old providers) if only the provider set changed; one entry per customer, in customer order
+        // old providers) if only the provider set changed; one entry per customer, in customer order.
+        // (C12: this is the premise AspaDelta::merge consumes.)
         adescribes(res.items@, firsts(old_iter.remaining()), firsts(new_iter.remaining())),
+        // C12: the provider set stored in every Update/Withdraw entry is the one the customer had in the
+        // OLD data set - merge takes it as the original baseline when it combines successive entries
+        stores_old_providers(res.items@, firsts(old_iter.remaining())),
         // C11: it is empty exactly when the two data sets are equal
         res.items@.len() == 0 <==> firsts(old_iter.remaining()) == firsts(new_iter.remaining()),
         // C11: applying it to the old data set yields the new data set
         aspa_applying_yields(firsts(old_iter.remaining()), res.items@, firsts(new_iter.remaining())),
         // C11: counts match the listed actions
         res.counted(),
-        // (the change set as a function of the two data sets; used by C12)
+        // C11 C12: the change set as a function of the two data sets
         res.items@ == adiff(firsts(old_iter.remaining()), firsts(new_iter.remaining())),
         // both iterators are run to completion: the data sets above are all they had to yield
         old_iter.will_return_none() && new_iter.will_return_none(),
@@ -305,6 +312,7 @@
     }
 //@ loop 1
         invariant_except_break
+            // C11 C12: what has been emitted plus what remains to be emitted is the change set old -> new
             adiff(O, N) == items.items@ + adiff(rest(opt_old, old_iter.remaining()), rest(opt_new, new_iter.remaining())),
             items.items@.len() + rest(opt_old, old_iter.remaining()).len() + rest(opt_new, new_iter.remaining()).len() <= usize::MAX,
             old_iter.will_return_none() == wo0,
@@ -317,6 +325,7 @@
             opt_new is None ==> new_iter.remaining().len() == 0 && new_iter.will_return_none(),
             items.counted(),
         ensures
+            // C11 C12
             items.items@ =~= adiff(O, N),
             wo0 && wn0,
         decreases
@@ -335,6 +344,8 @@
             }
 //@ loopend 1
             proof {
+                // C11 C12: one step of the merge-join emits exactly the entry the change set has for this
+                // customer (for an Update: carrying the OLD providers)
                 assert(items0 + adiff(ro0, rn0)
                     =~= items.items@ + adiff(rest(opt_old, old_iter.remaining()), rest(opt_new, new_iter.remaining())));
             }
@@ -344,6 +355,7 @@
         lemma_adiff_describes(O, N);
         lemma_adescribes_empty_iff_equal(items.items@, O, N);
         lemma_adescribes_apply(items.items@, O, N);
+        lemma_adescribes_stores_old(items.items@, O, N);
     }
 //@ closure 3
 |x: &'a Aspa| -> (r: (Aspa, AspaAction)) ensures r == (*x, AspaAction::Announce)
@@ -366,7 +378,9 @@
         forall|a: Seq<Aspa>, b: Seq<Aspa>, c: Seq<Aspa>|
             asorted(a) && asorted(c)
             && #[trigger] adescribes(old.items@, a, b) && #[trigger] adescribes(new.items@, b, c)
-            ==> res.items@ == adiff(a, c) && adescribes(res.items@, a, c),
+            ==> res.items@ == adiff(a, c) && adescribes(res.items@, a, c)
+                // C12: the stored provider sets of the result are again those of the older side's OLD data set
+                && stores_old_providers(res.items@, a),
         // C12: counts match the listed actions
         res.counted(),
         res.items@ == amrg(old.items@, new.items@),
@@ -409,10 +423,12 @@
         assert forall|a: Seq<Aspa>, b: Seq<Aspa>, c: Seq<Aspa>|
             asorted(a) && asorted(c)
             && #[trigger] adescribes(X, a, b) && #[trigger] adescribes(Y, b, c)
-            implies items.items@ == adiff(a, c) && adescribes(items.items@, a, c) by {
+            implies items.items@ == adiff(a, c) && adescribes(items.items@, a, c)
+                && stores_old_providers(items.items@, a) by {
             lemma_amrg_describes(X, Y, a, b, c);
             lemma_adiff_describes(a, c);
             lemma_adescribes_unique(items.items@, adiff(a, c), a, c);
+            lemma_adescribes_stores_old(items.items@, a, c);
         }
     }
 //@ loopend 1
@@ -2065,4 +2081,33 @@ impl vstd::std_specs::convert::FromSpecImpl<AspaAction> for Action {
 impl<'a> vstd::std_specs::convert::FromSpecImpl<&'a AspaAction> for Action {
     open spec fn obeys_from_spec() -> bool { true }
     closed spec fn from_spec(v: &'a AspaAction) -> Action { rtr_action(*v) }
+}
+
+// C12: the provider set stored in an Update/Withdraw entry of a change set from data set `o` is the one
+// the customer had in `o` (AspaDelta::merge uses it as the original baseline: Update then Update back to
+// it cancels, Update then Withdraw withdraws it, Withdraw then Announce of it cancels); an Announce
+// entry's customer has no ASPA in `o`
+spec fn stores_old_providers(d: Seq<(Aspa, AspaAction)>, o: Seq<Aspa>) -> bool {
+    forall|i: int| 0 <= i < d.len() ==> match (#[trigger] d[i]).1 {
+        AspaAction::Announce => afind(o, d[i].0.customer) is None,
+        AspaAction::Update(p) => afind(o, d[i].0.customer) matches Some(a) && a.providers == p,
+        AspaAction::Withdraw(p) => afind(o, d[i].0.customer) matches Some(a) && a.providers == p,
+    }
+}
+
+proof fn lemma_adescribes_stores_old(d: Seq<(Aspa, AspaAction)>, o: Seq<Aspa>, n: Seq<Aspa>)
+    requires total_order::<Asn>(), adescribes(d, o, n),
+    ensures stores_old_providers(d, o),
+{
+    assert forall|i: int| 0 <= i < d.len() implies match (#[trigger] d[i]).1 {
+        AspaAction::Announce => afind(o, d[i].0.customer) is None,
+        AspaAction::Update(p) => afind(o, d[i].0.customer) matches Some(a) && a.providers == p,
+        AspaAction::Withdraw(p) => afind(o, d[i].0.customer) matches Some(a) && a.providers == p,
+    } by {
+        let e = d[i];
+        let k = e.0.customer;
+        assert(d.contains(e));
+        lemma_dfind_contains(d, e);
+        assert(dfind(d, k) == aspa_change(afind(o, k), afind(n, k)));
+    }
 }
